@@ -109,7 +109,7 @@ ResAxis  == /\ pc = "res" /\ m.num >= 1 /\ SrcN(c) >= 2
 SpecArith == /\ pc = "start" /\ c.kind = "spec"
              /\ m' = [m EXCEPT !.np0 = ImplNp0(c), !.np = ImplNp(c, SrcN(c)), !.nov = ImplNov(c), !.t0 = SrcOff(c)]
              /\ pc' = "triage" /\ Stay
-SpecRaise == /\ pc = "triage" /\ ImplSpecRaises(c, SrcN(c)) = TRUE   \* (= TRUE: keeps TLC from splitting the action)            \* nperseg must be positive / noverlap must be less than nperseg
+SpecRaise == /\ pc = "triage" /\ ImplSpecRaises(c, SrcN(c)) = TRUE   \* (= TRUE: keeps TLC from splitting the action)
              /\ m' = [m EXCEPT !.raised = "ValueError"]
              /\ pc' = "raised" /\ Stay
 \* time unit 1/(sr*tden): one sample = tden, requested hop = h*sr; frequency unit sr/(np*npadv): bin k = k*npadv
